@@ -1,19 +1,28 @@
 """C01, expression-lowering slice (coq/theories/C01expr): hir_lowering.rs `ExpressionLoweringManager::lower` and the
 functions it dispatches to (lower_binary incl. the && / || / :: arms, lower_if_else, lower_block, lower_unary,
-lower_fn_call, lower_method_access, lower_field_access, lower_tuple, literals, variables).
+lower_fn_call, lower_method_access, lower_field_access, lower_tuple, lower_lambda + create_synthetic_lambda_function,
+literals, variables; `let` with a variable, wildcard or flat tuple pattern).
 
 Layer A: theories/C01expr/Props.v: for every expression of the fragment, every environment and every world, running the
-  statements `Lower.lower` emits in HirSem gives the value and the trace of oracle calls SrcSem prescribes (or both
-  end the same way); the seeded shortcut C01-7 and the spec's argument-first call order are refuted by vm_compute.
-Layer B: `vh hirexpr-dump` compiles generated programs (gen/progs.py gen_order_program, gen_program, gen_infer_program) to
-  HIR through the hook `samlang_compiler::verif::compile_sources_to_hir` and prints, per class member, the checked source
-  expression of the body next to the HIR function produced for it.  Bodies inside the fragment are translated to
-  Gallina terms; inside coqc (vm_compute, sharded) `Lower.lower_body` of the source term must EQUAL the real statements
-  and result expression, with the temporaries taken from the supply `_t<base+k>` (the base is read off the smallest
-  index that occurs); the hypothesis of the theorem (no `let` rebinds a visible name) is evaluated on every body; and
-  SrcSem of the body is compared with HirSem of the REAL statements on small environments and worlds (instances of the
-  theorem on the real output).  Fragment coverage (bodies, expression nodes, per constructor, reasons outside) is
-  reported in the evidence.
+  statements `Lower.lower` emits in HirSem gives the value and the history of oracle calls SrcSem prescribes (or both
+  end the same way); the synthetic function of a lambda computes what the lambda's body computes; short-circuit
+  operands run exactly when the left operand does not decide; the statements of every live sub-expression are present
+  in evaluation order; the seeded shortcut C01-7, the spec's argument-first call order and a rebinding `let` are
+  refuted by vm_compute.
+Layer B: `vh hirexpr-dump` compiles generated programs (gen/progs.py gen_order_program, gen_program, gen_infer_program)
+  and two fixed programs to HIR through the hook `samlang_compiler::verif::compile_sources_to_hir` and prints, per class
+  member, the checked source expression of the body next to the HIR function produced for it, and the synthetic
+  functions of the lambdas.  Bodies inside the fragment are translated to Gallina terms; inside coqc (vm_compute,
+  sharded) `Lower.lower_body` of the source term must EQUAL the real statements and result expression, and
+  `Lower.lambda_fn` the real synthetic function of every lambda (paired through the ClosureInit statements).
+  Temporaries: `Heap::alloc_temp_str` names them after the size of the string table, so the names of one body are
+  increasing but not consecutive, and a temporary that is drawn and never used leaves no trace; the supply handed to
+  the model maps the temporaries that OCCUR in its output, in increasing order, to those that occur in the real
+  statements (Corr.supply).  The hypothesis of the theorem (no `let` rebinds a visible name) is evaluated on every
+  body; SrcSem of the body is compared with HirSem of the REAL statements on small environments and worlds (instances
+  of the theorem on the real output).  Fragment coverage (bodies, expression nodes, per constructor, reasons outside)
+  is reported in the evidence (`c01expr_fragment`).  A body that disagrees is also compared with the model of the
+  seeded change C01-7 (Lower.Seeded7) and the disagreement says so when that one matches.
 
 `expr(ck, tier, seed)` is the library entry (call it from checks/c01.py); `run()` is a standalone wrapper whose
 evidence / replay files go under /verif/work/c01expr (never /verif/evidence).
@@ -48,11 +57,14 @@ class Names:
         self.funs = {}
         self.constructors = set(constructors)
         self.concat = concat
+        self.lams = None
 
     def var(self, x):
         m = re.fullmatch(r'_t(\d+)', x)
         if m:
             return '%d%%N' % (2 * int(m.group(1)) + 1)
+        if x == '_this':
+            return '0%N'                      # Syntax.this_name
         if x not in self.vars:
             self.vars[x] = 2 * (len(self.vars) + 1)
         return '%d%%N' % self.vars[x]
@@ -63,11 +75,54 @@ class Names:
         return self.funs[f]
 
     def fun(self, f, hir_args=None):
+        m = re.fullmatch(r'M:\._GenFn\.(\d+)', f)
+        if m:
+            return '(FLam %d%%N)' % int(m.group(1))
         if f in self.constructors:
             return '(FInit %d%%N)' % self.fid(f)
         if f == self.concat and hir_args == 2:
             return 'FConcat'
         return '(FUser %d%%N)' % self.fid(f)
+
+
+# ------------------------------------------------------------------ lambdas <-> synthetic functions
+def closure_numbers(ss, out):
+    """the numbers k of the ClosureInit statements that name a synthetic function `_GenFn.k`, in statement order"""
+    for s in ss:
+        if s[0] == 'closure':
+            m = re.fullmatch(r'M:\._GenFn\.(\d+)', s[2])
+            if m:
+                out.append(int(m.group(1)))
+        elif s[0] == 'if':
+            closure_numbers(s[2], out)
+            closure_numbers(s[3], out)
+        elif s[0] == 'destr':
+            closure_numbers(s[4], out)
+            closure_numbers(s[5], out)
+    return out
+
+
+class Lams:
+    """The lambdas of one body get the numbers of the synthetic functions in the order of the ClosureInit statements of
+    the real body (a wrong pairing shows as a disagreement of the statements); a nested lambda is numbered from the
+    statements of the synthetic function it lives in.  `cases` collects one Corr.lcase per lambda."""
+
+    def __init__(self, real_stmts, synthetic, cases):
+        self.ks = closure_numbers(real_stmts, [])
+        self.pos = 0
+        self.synthetic = synthetic
+        self.cases = cases
+
+    def next(self):
+        if self.pos >= len(self.ks):
+            raise Outside('lambda without a ClosureInit in the real statements (lowered in dropped code)')
+        k = self.ks[self.pos]
+        self.pos += 1
+        return k
+
+    def done(self):
+        if self.pos != len(self.ks):
+            raise Outside('lambda count differs from the ClosureInit statements')
 
 
 # ------------------------------------------------------------------ source expression -> Gallina (Syntax.expr)
@@ -118,7 +173,8 @@ def count_nodes(x, acc):
     elif k == 'block':
         for st in x[1]:
             if st[0] == 'let':
-                kk = 'let ' + ('var' if st[1][0] == 'var' else 'wildcard' if st[1][0] == 'wild' else 'pattern')
+                kk = 'let ' + ('var' if st[1][0] == 'var' else 'wildcard' if st[1][0] == 'wild' else
+                               'flat tuple' if st[1][0] == 'tuple' and all(q[0] in ('var', 'wild') for q in st[1][1]) else 'pattern')
                 acc[kk] = acc.get(kk, 0) + 1
             count_nodes(st[-1], acc)
         if x[2] is not None:
@@ -147,17 +203,21 @@ def g_src(x, nm):
             return '(EOr %s %s)' % (g_src(a, nm), g_src(b, nm))
         if op == '::':
             return '(EConcat %s %s)' % (g_src(a, nm), g_src(b, nm))
-        if op in ('==', '!=') and kd not in ('int', 'bool', 'unit'):
-            raise Outside('== / != on operands that are not int, bool or unit')
+        if op in ('==', '!=') and kd not in ('int', 'bool', 'unit', 'str'):
+            raise Outside('== / != on operands that are not int, bool, unit or Str')
         return '(EBin %s %s %s)' % (BINOPS[op], g_src(a, nm), g_src(b, nm))
     if k == 'call':
         callee, args, void = x[1], x[2], x[3]
-        ga = g_exprs([g_src(a, nm) for a in args])
+        # receiver / callee first, then the arguments: the lambdas are numbered in lowering order
         if callee[0] == 'method':
             if callee[2].startswith('?'):
                 raise Outside('receiver type is neither nominal nor generic')
-            return '(ECallM %s %s %s %s)' % (g_src(callee[1], nm), nm.fun(callee[2]), ga, 'true' if void else 'false')
-        return '(ECallC %s %s %s)' % (g_src(callee, nm), ga, 'true' if void else 'false')
+            go = g_src(callee[1], nm)
+            ga = g_exprs([g_src(a, nm) for a in args])
+            return '(ECallM %s %s %s %s)' % (go, nm.fun(callee[2]), ga, 'true' if void else 'false')
+        gc = g_src(callee, nm)
+        ga = g_exprs([g_src(a, nm) for a in args])
+        return '(ECallC %s %s %s)' % (gc, ga, 'true' if void else 'false')
     if k == 'method':
         if x[2].startswith('?'):
             raise Outside('receiver type is neither nominal nor generic')
@@ -178,7 +238,29 @@ def g_src(x, nm):
     if k == 'match':
         raise Outside('match')
     if k == 'lambda':
-        raise Outside('lambda')
+        lams = nm.lams
+        if lams is None:
+            raise Outside('lambda')
+        kf = lams.next()
+        fn = lams.synthetic.get('M:._GenFn.%d' % kf)
+        if fn is None:
+            raise Outside('lambda: synthetic function not in the dump')
+        params, caps = x[1], x[2]
+        gp = '[%s]' % '; '.join(nm.var(p) for p in params)
+        gc = '[%s]' % '; '.join(nm.var(c) for c in caps)
+        inner = Lams(fn['stmts'], lams.synthetic, lams.cases)
+        nm.lams = inner
+        try:
+            gb = g_src(x[3], nm)
+            inner.done()
+        finally:
+            nm.lams = lams
+        try:
+            lams.cases.append(('(%s, %s, %s, [%s], %s, %s)' % (gc, gp, gb, '; '.join(nm.var(p) for p in fn['params']),
+                                                             g_hstmts(fn['stmts'], nm), g_hexpr(fn['ret'], nm)), kf))
+        except NotInModel as e:
+            raise Outside('lambda body lowered to a statement outside the model: %s' % e)
+        return '(ELambda %d%%N %s %s %s)' % (kf, gc, gp, gb)
     raise Outside('unknown node ' + k)
 
 
@@ -202,6 +284,10 @@ def g_blk(stmts, final, nm):
                 parts.append('BLet (Some %s) %s' % (nm.var(p[1]), e))
             elif p[0] == 'wild':
                 parts.append('BLet None %s' % g_src(st[3], nm))
+            elif p[0] == 'tuple' and all(q[0] in ('var', 'wild') for q in p[1]):
+                e = g_src(st[3], nm)
+                els = '; '.join('Some %s' % nm.var(q[1]) if q[0] == 'var' else 'None' for q in p[1])
+                parts.append('BLetT [%s] [%s] %s' % ('; '.join(nm.var(k) for k in st[2]), els, e))
             else:
                 raise Outside('let with a structured pattern')
     out = 'BEndU' if final is None else '(BEndE %s)' % g_src(final, nm)
@@ -254,6 +340,8 @@ def g_hstmt(s, nm):
         return '(HAssign %s %s)' % (nm.var(s[1]), g_hexpr(s[2], nm))
     if k == 'closure':
         return '(HClosure %s %s %s)' % (nm.var(s[1]), nm.fun(s[2]), g_hexpr(s[3], nm))
+    if k == 'struct':
+        return '(HStruct %s [%s])' % (nm.var(s[1]), '; '.join(g_hexpr(a, nm) for a in s[2]))
     raise NotInModel(k)
 
 
@@ -353,6 +441,25 @@ FIXED = [
   function main(): unit = { Main.g(Main.a(1) + Main.b(2) + Main.h(3) + Main.i(4)); Main.p(Main.e("s")); let _ = Main.c(true); let _ = Main.d(false); }
 }
 '''),
+    # lambdas: nothing captured, several captured, `this` captured (renamed inside the synthetic function), nested lambdas that capture
+    # a parameter of the outer lambda and `this`, a lambda in a dead operand; tuple patterns with wildcards and repeated use
+    ('fixed:lambdas', '''class Acc(val v: int, val w: int) {
+  method add(k: int): (int) -> int = (x) -> this.v + x + k
+  method curried(): (int) -> (int) -> int = (a) -> (b) -> this.v * a + this.w * b
+  method sum(): int = { let (a, b) = (this.w, this.v); let (_, c) = (a, b); let (d, _, e) = (c, a, b); a + b + c + d + e }
+  function konst(): () -> int = () -> 7
+  function apply(f: (int) -> int, x: int): int = f(x)
+  function both(x: int, y: int, z: bool): int = { let f = (p: int) -> if z { p + x } else { p - y }; Acc.apply(f, x) + Acc.apply((q) -> q * y, y) }
+  function dead(x: int): bool = false && Acc.apply((q) -> q + x, 1) > 0
+}
+class Main {
+  function main(): unit = {
+    let a = Acc.init(3, 4);
+    Process.println(Str.fromInt(a.add(1)(2) + a.curried()(5)(6) + a.sum() + Acc.konst()() + Acc.both(1, 2, true)));
+    let _ = Acc.dead(1);
+  }
+}
+'''),
 ]
 
 
@@ -366,6 +473,7 @@ def expr(ck, tier, seed):
 
     tie_texts, tie_meta = [], []
     san_texts, san_meta = [], []
+    lam_texts, lam_meta = [], []
     cov = {}                     # family -> [bodies, bodies in fragment, nodes, nodes in fragment bodies]
     outside = {}
     node_all, node_in = {}, {}
@@ -375,7 +483,7 @@ def expr(ck, tier, seed):
         fam = jid.split(':')[0]
         r = res.get(jid)
         if r is None or 'functions' not in r:
-            if r is not None and r.get('rejected'):
+            if r is not None and r.get('rejected') and fam != 'fixed':
                 rejected += 1
                 continue
             ck.obligation('hirexpr-dump(%s)' % jid, False, json.dumps(r)[:400])
@@ -395,9 +503,12 @@ def expr(ck, tier, seed):
             for k, v in acc.items():
                 node_all[k] = node_all.get(k, 0) + v
             nm = Names(r['constructors'], r['concat'])
+            lcases = []
             try:
                 gparams = [nm.var(p) for p in f['params']]
+                nm.lams = Lams(f['stmts'], r.get('synthetic_functions', {}), lcases)
                 gsrc = g_src(f['src'], nm)
+                nm.lams.done()
             except Outside as e:
                 outside[str(e)] = outside.get(str(e), 0) + 1
                 continue
@@ -412,7 +523,10 @@ def expr(ck, tier, seed):
                             'a statement form of the model', 'real HIR contains %s' % e)
                 continue
             tie_texts.append('([%s], %s, %s, %s)' % ('; '.join(gparams), gsrc, gs, gr))
-            tie_meta.append((jid, f['name'], nn))
+            tie_meta.append((jid, f['name'], nn, json.dumps(f['src'], sort_keys=True)))
+            for text, kf in lcases:
+                lam_texts.append(text)
+                lam_meta.append((jid, '%s / _GenFn.%d' % (f['name'], kf)))
             # sanity evaluation: typed parameters and the world table
             pk = ([['class', f['class']]] if f.get('method') else ['unit']) + f.get('pk', [])
             if len(pk) == len(f['params']):
@@ -431,10 +545,10 @@ def expr(ck, tier, seed):
     rows = eval_rows(ck, 'tie', tie_texts, 'fcase', 'tie_fns', 4)
     nsame = 0
     bad = []
-    for (jid, fname, nn), row, text in zip(tie_meta, rows, tie_texts):
+    for (jid, fname, nn, canon), row, text in zip(tie_meta, rows, tie_texts):
         if row is None:
             continue
-        ck.case(['tie', text], nontrivial=nn > 1)
+        ck.case(['tie', canon], nontrivial=nn > 1)          # the source body (temporary numbers vary from run to run)
         if row[0] != 0:
             bad.append((jid, fname, text))
         else:
@@ -456,6 +570,28 @@ def expr(ck, tier, seed):
                                               'right operand of && / || dropped when its value is a literal)' if is7 else ''),
                         how='coqc on work/c01expr_tie_*.v; Corr.model_of prints the model output')
     ck.count('bodies whose real HIR equals the model output', nsame)
+
+    # ---- the synthetic functions of the lambdas
+    lrows = eval_rows(ck, 'lambda', lam_texts, 'lcase', 'tie_lambdas', 4)
+    lsame = 0
+    lbad = []
+    for (jid, fname), row, text in zip(lam_meta, lrows, lam_texts):
+        if row is None:
+            continue
+        ck.case(['lambda', jid, fname.split(' / ')[0]], nontrivial=False)
+        if row[0] != 0:
+            lbad.append((jid, fname, text))
+        else:
+            lsame += 1
+        if row[1] != 1:
+            ck.disagree('C01expr: hypothesis `ns` on the body of a lambda', {'job': jid, 'function': fname, 'source': srcs[jid]}, 'true', 'false')
+    if lbad:
+        jobs2 = [('c01expr_lshow_%d' % i, HEADER + 'Eval vm_compute in (lmodel_of %s).\n' % t) for i, (_, _, t) in enumerate(lbad[:3])]
+        shown = [(coq_result(o) or o[-400:])[:1500] for rc, o in coq_eval_many(jobs2, timeout=300)]
+        for k2, (jid, fname, text) in enumerate(lbad):
+            ck.disagree('C01expr: Lower.lambda_fn == real synthetic function', {'job': jid, 'function': fname, 'source': srcs[jid]},
+                        shown[k2] if k2 < len(shown) else 'model output differs', 'real synthetic function differs')
+    ck.count('synthetic functions of lambdas whose real HIR equals the model output', lsame)
 
     # ---- sanity evaluation on the real statements
     salts = '[1; 2; 3; 4; 5; 6]%N' if tier == 'quick' else '[1; 2; 3; 4; 5; 6; 7; 8; 9; 10; 11; 12; 13; 14; 15; 16]%N'
@@ -490,7 +626,8 @@ def expr(ck, tier, seed):
                     % (tb[1], tb[0], tb[3], tb[2], json.dumps(outside, sort_keys=True)))
     if tb[1] == 0:
         ck.obligation('C01expr: some body in the fragment', False, 'no function body could be translated')
-    return {'bodies': tb[0], 'in_fragment': tb[1], 'nodes': tb[2], 'nodes_in': tb[3], 'same': nsame, 'bad': len(bad), 'sanity': tot}
+    return {'bodies': tb[0], 'in_fragment': tb[1], 'nodes': tb[2], 'nodes_in': tb[3], 'same': nsame, 'bad': len(bad), 'sanity': tot,
+            'lambdas_same': lsame, 'lambdas_bad': len(lbad)}
 
 
 def eval_models(ck, texts):
@@ -512,9 +649,9 @@ def run(tier='quick', seed=1, replay=None):
                   'the translation to Gallina terms in checks/c01_expr.py (a wrong translation shows as a disagreement)',
                   'the semantics SrcSem.v (read off spec.md 6.15 and harness/src/srcsem.rs) and HirSem.v (read off hir.rs) are hand-written; '
                   'calls of named functions are answered by an oracle, so the theorem is per function body']
-    ck.rule = ('cases = function bodies of generated programs (gen_order_program, gen_program, gen_infer_program) and one fixed program inside the '
-               'fragment; distinct = distinct (body, statements) pairs with more than one expression node; evaluations include the sanity '
-               'instances SrcSem vs HirSem on the real statements')
+    ck.rule = ('cases = function bodies of generated programs (gen_order_program, gen_program, gen_infer_program) and two fixed programs inside the '
+               'fragment, and the synthetic functions of their lambdas; distinct = distinct source bodies with more than one expression node; '
+               'evaluations include the sanity instances SrcSem vs HirSem on the real statements')
     expr(ck, tier, seed)
     return ck.finish()
 
